@@ -184,7 +184,10 @@ Section Gen.
 End Gen.
 
 Lemma tr_eq undict s indent c : tr undict s indent c = g_tr undict (tr undict) s indent c.
-Proof. Time destruct s; reflexivity. Qed.
+Proof.
+  (* by computation; the kernel's conversion is much faster here than the tactic unifier *)
+  destruct s; match goal with |- _ = ?r => exact_no_check (@eq_refl _ r) end.
+Qed.
 
 Lemma tr_list_eq undict l indent c : tr_list undict l indent c = g_list (tr undict) l indent c.
 Proof.
@@ -208,7 +211,14 @@ Ltac bind_inv H :=
   let x := fresh "x" in let Hx := fresh "Hx" in
   apply bindT_ok in H as [x [Hx H]]; try (destruct x as [? ?]).
 
-Ltac tok_inv H := first [injection H as <- <- | injection H as <-].
+Lemma TOk_pair_inj {A B} (a b : A) (c d : B) : TOk (a, c) = TOk (b, d) -> a = b /\ c = d.
+Proof. intro H. inversion H. split; reflexivity. Qed.
+Lemma TOk_inj {A} (a b : A) : TOk a = TOk b -> a = b.
+Proof. intro H. inversion H. reflexivity. Qed.
+
+Ltac tok_inv H :=
+  cbv beta iota in H;
+  first [apply TOk_pair_inj in H as [<- <-] | apply TOk_inj in H as <-].
 
 Lemma ST_one_eq st core t : t = core ++ [nl] -> safe_core st core = true -> safe_text st t.
 Proof. intros -> H. apply (safe_text_one st [] core eq_refl H). Qed.
@@ -457,58 +467,70 @@ Section Structures.
         + inversion Hbs as [|? ? Hx Htl]; subst. inversion Htl as [|? ? Hy Hrest]; subst.
           cbn [g_ifs] in H. simpl in Hlen. destruct first.
           * bind_inv H. bind_inv H. tok_inv H. apply (g_ast_good x Hx) in Hx0.
-            apply (IH (y :: rest)) in Hx1; [|simpl; lia|exact Htl]. pieces.
+            assert (Hm : ST s1) by exact (IH (y :: rest) ltac:(simpl; lia) Htl false indent s0 s1 s2 Hx1). pieces.
           * bind_inv H. bind_inv H. bind_inv H. tok_inv H.
             apply (g_ast_good x Hx) in Hx0. apply (g_ast_good y Hy) in Hx1.
-            apply (IH rest) in Hx2; [|lia|exact Hrest]. pieces.
+            assert (Hm : ST s3) by exact (IH rest ltac:(lia) Hrest false (S indent) s2 s3 s4 Hx2). pieces.
     Qed.
   End WithF.
+
+  (* stated for an abstract f: the kernel has nothing to unfold but g_wrapped itself *)
+  Lemma g_wrapped_cases f x indent c :
+    (exists a body, x = SLambda a body /\ g_wrapped f x indent c = g_lam f a body indent c)
+    \/ g_wrapped f x indent c = g_lam_with (fst (lambda_wrap1 x)) (f x 0%nat) indent c.
+  Proof. destruct x; try (right; reflexivity). left. eauto. Qed.
+
+  Lemma g_tr_lambda f a body indent c : g_tr undict f (SLambda a body) indent c = g_lam f a body indent c.
+  Proof. reflexivity. Qed.
 
   Lemma wrapped_good x : good (tr undict) x ->
     forall indent c text c', g_wrapped (tr undict) x indent c = TOk (text, c') -> ST text.
   Proof.
     intros Hx indent c text c' H.
-    destruct x; try (eapply g_lam_with_good; [|exact H]; intros c0 b c1 Hb; eapply Hx; exact Hb).
-    (* an operand that is a lambda is transpiled as it is *)
-    cbn [g_wrapped] in H. eapply Hx. rewrite tr_eq. exact H.
+    destruct (g_wrapped_cases (tr undict) x indent c) as [[a [body [-> E]]]|E]; rewrite E in H.
+    - (* an operand that is a lambda is transpiled as it is *)
+      eapply Hx. rewrite tr_eq, g_tr_lambda. exact H.
+    - eapply g_lam_with_good; [|exact H]. intros c0 b c1 Hb. eapply Hx. exact Hb.
   Qed.
 
   Definition Q (t : token) : Prop := tok_ok st undict t = true.
 
   Lemma Forall_mp {A} (P1 P2 : A -> Prop) l : Forall (fun x => P1 x -> P2 x) l -> Forall P1 l -> Forall P2 l.
-  Proof. induction 1; intro H; inversion H; subst; constructor; auto. Qed.
+  Proof. induction 1 as [|x l Hx Hl IH]; intro H'; inversion H'; subst; constructor; auto. Qed.
 
   Lemma Forall2_mp {A} (P1 P2 : A -> Prop) l :
     Forall (Forall (fun x => P1 x -> P2 x)) l -> Forall (Forall P1) l -> Forall (Forall P2) l.
-  Proof. induction 1; intro H'; inversion H'; subst; constructor; [eapply Forall_mp; eassumption|auto]. Qed.
+  Proof. induction 1 as [|x l Hx Hl IH]; intro H'; inversion H'; subst; constructor; [eapply Forall_mp; eassumption|auto]. Qed.
 
   Theorem tree_safe s : tree_ok Q s -> good (tr undict) s.
   Proof.
-    induction s using struct_ind'; intros Hok indent c text c' H; rewrite tr_eq in H; cbn [g_tr] in H;
+    induction s as [t|p|p|bs IHbs|names body IHbody|cond body IHcond IHbody|name|name ps body IHbody
+                    |a body IHbody|o body IHbody|its IHits|m x IHx|m x y IHx IHy|m x y z IHx IHy IHz]
+      using struct_ind';
+      intros Hok indent cc text cc' Htr; rewrite tr_eq in Htr; cbn [g_tr] in Htr;
       inversion Hok; subst.
     - (* token *)
-      bind_inv H. tok_inv H. unfold transpile_token in Hx.
+      bind_inv Htr. tok_inv Htr. unfold transpile_token in Hx.
       destruct (token_text undict t) as [y|e] eqn:E; [|discriminate]. tok_inv Hx.
       eapply token_safe; [eassumption|exact E].
-    - tok_inv H. apply break_safe.
-    - tok_inv H. apply recurse_safe.
+    - tok_inv Htr. apply break_safe.
+    - tok_inv Htr. apply recurse_safe.
     - (* if *)
-      eapply (g_ifs_good (tr undict) (List.length bs) bs (le_n _)); [|exact H].
+      eapply (g_ifs_good (tr undict) (List.length bs) bs (le_n _)); [|exact Htr].
       eapply Forall2_mp; eassumption.
     - (* for *)
-      assert (Hb : Forall (good (tr undict)) b) by (eapply Forall_mp; eassumption).
-      destruct (match n with
-                | n0 :: _ => (n0, c)
-                | [] => (L "LOOP" ++ N_to_dec (N.of_nat (snd c)), (fst c, S (snd c)))
+      assert (Hb : Forall (good (tr undict)) body) by (eapply Forall_mp; eassumption).
+      destruct (match names with
+                | n0 :: _ => (n0, cc)
+                | [] => (L "LOOP" ++ N_to_dec (N.of_nat (snd cc)), (fst cc, S (snd cc)))
                 end) as [raw c0].
-      bind_inv H. tok_inv H. apply (g_ast_good (tr undict) b Hb) in Hx.
+      bind_inv Htr. tok_inv Htr. apply (g_ast_good (tr undict) body Hb) in Hx.
       pose proof (keep_ident re_keep_for raw re_keep_for_ident) as Hid.
       destruct (keep re_keep_for raw) as [|v0 v] eqn:Ev.
       + pieces.
       + apply safe_text_app.
-        { replace (L "for " ++ (L "VAR_" ++ v0 :: v) ++ L " in iterable(pop(stack, 1, ctx=ctx), range, ctx):")
-            with (L "for VAR_" ++ (v0 :: v) ++ L " in iterable(pop(stack, 1, ctx=ctx), range, ctx):")
-            by (simpl; rewrite <- ?app_assoc; reflexivity).
+        { apply (ST_eq st indent _ (L "for VAR_" ++ (v0 :: v) ++ L " in iterable(pop(stack, 1, ctx=ctx), range, ctx):"));
+            [simpl; rewrite <- ?app_assoc; reflexivity|].
           apply (ST_shape st indent sh_for (v0 :: v)); [simpl; tauto|exact Hid]. }
         apply safe_text_app.
         { apply ST_line. unfold safe_line.
@@ -518,43 +540,45 @@ Section Structures.
           apply (safe_core_line_shape st sh_for_ctx (v0 :: v)); [simpl; tauto|exact Hid]. }
         pieces.
     - (* while *)
-      assert (Hc : Forall (good (tr undict)) c) by (eapply Forall_mp; eassumption).
-      assert (Hb : Forall (good (tr undict)) b) by (eapply Forall_mp; eassumption).
-      bind_inv H. bind_inv H. bind_inv H. tok_inv H.
-      apply (g_ast_good (tr undict) c Hc) in Hx, Hx1. apply (g_ast_good (tr undict) b Hb) in Hx0.
+      assert (Hc : Forall (good (tr undict)) cond) by (eapply Forall_mp; eassumption).
+      assert (Hb : Forall (good (tr undict)) body) by (eapply Forall_mp; eassumption).
+      bind_inv Htr. bind_inv Htr. bind_inv Htr. tok_inv Htr.
+      apply (g_ast_good (tr undict) cond Hc) in Hx, Hx1. apply (g_ast_good (tr undict) body Hb) in Hx0.
       pieces.
     - (* function call *)
-      tok_inv H.
-      apply (ST_shape st indent sh_fncall (keep re_keep_fncall n)); [simpl; tauto|].
+      tok_inv Htr.
+      apply (ST_shape st indent sh_fncall (keep re_keep_fncall name)); [simpl; tauto|].
       apply keep_ident. exact re_keep_fncall_ident.
     - (* function definition *)
-      assert (Hb : Forall (good (tr undict)) b) by (eapply Forall_mp; eassumption).
-      bind_inv H. bind_inv H. tok_inv H.
-      apply params_safe in Hx. apply (g_ast_good (tr undict) b Hb) in Hx0.
-      pose proof (keep_ident re_keep_fndef n re_keep_fndef_ident) as Hid.
+      assert (Hb : Forall (good (tr undict)) body) by (eapply Forall_mp; eassumption).
+      bind_inv Htr. bind_inv Htr. tok_inv Htr.
+      apply params_safe in Hx. apply (g_ast_good (tr undict) body Hb) in Hx0.
+      pose proof (keep_ident re_keep_fndef name re_keep_fndef_ident) as Hid.
       apply safe_text_app.
-      { apply (ST_shape st indent sh_fndef (keep re_keep_fndef n)); [simpl; tauto|exact Hid]. }
+      { apply (ST_shape st indent sh_fndef (keep re_keep_fndef name)); [simpl; tauto|exact Hid]. }
       pieces.
-      replace (L "this = VAR_" ++ keep re_keep_fndef n) with (L "this = VAR_" ++ keep re_keep_fndef n ++ [])
-        by (rewrite app_nil_r; reflexivity).
-      apply (ST_shape st (S indent) sh_this (keep re_keep_fndef n)); [simpl; tauto|exact Hid].
+      apply (ST_eq st (S indent) _ (L "this = VAR_" ++ keep re_keep_fndef name ++ []));
+        [rewrite app_nil_r; reflexivity|].
+      apply (ST_shape st (S indent) sh_this (keep re_keep_fndef name)); [simpl; tauto|exact Hid].
     - (* lambda *)
-      eapply (g_lam_good (tr undict)); [|exact H]. eapply Forall_mp; eassumption.
+      eapply (g_lam_good (tr undict)); [|exact Htr]. eapply Forall_mp; eassumption.
     - (* lambda map / filter / sort *)
-      bind_inv H. tok_inv H.
+      bind_inv Htr. tok_inv Htr.
       apply (g_lam_good (tr undict)) in Hx; [|eapply Forall_mp; eassumption]. pieces.
     - (* list *)
-      bind_inv H. tok_inv H.
+      bind_inv Htr. tok_inv Htr.
       apply (g_items_good (tr undict)) in Hx; [|eapply Forall2_mp; eassumption]. pieces.
     - (* monadic modifier *)
-      bind_inv H. tok_inv H. apply (wrapped_good s (IHs H1)) in Hx. pieces.
+      bind_inv Htr. tok_inv Htr. match goal with Hq : tree_ok Q x |- _ => apply (wrapped_good x (IHx Hq)) in Hx end. pieces.
     - (* dyadic modifier *)
-      bind_inv H. bind_inv H. tok_inv H.
-      apply (wrapped_good s1 (IHs1 H2)) in Hx. apply (wrapped_good s2 (IHs2 H4)) in Hx0. pieces.
+      bind_inv Htr. bind_inv Htr. tok_inv Htr.
+      match goal with Hq : tree_ok Q x |- _ => apply (wrapped_good x (IHx Hq)) in Hx end.
+      match goal with Hq : tree_ok Q y |- _ => apply (wrapped_good y (IHy Hq)) in Hx0 end. pieces.
     - (* triadic modifier *)
-      bind_inv H. bind_inv H. bind_inv H. tok_inv H.
-      apply (wrapped_good s1 (IHs1 H3)) in Hx. apply (wrapped_good s2 (IHs2 H5)) in Hx0.
-      apply (wrapped_good s3 (IHs3 H6)) in Hx1. pieces.
+      bind_inv Htr. bind_inv Htr. bind_inv Htr. tok_inv Htr.
+      match goal with Hq : tree_ok Q x |- _ => apply (wrapped_good x (IHx Hq)) in Hx end.
+      match goal with Hq : tree_ok Q y |- _ => apply (wrapped_good y (IHy Hq)) in Hx0 end.
+      match goal with Hq : tree_ok Q z |- _ => apply (wrapped_good z (IHz Hq)) in Hx1 end. pieces.
   Qed.
 
   Theorem program_safe l text :
@@ -568,3 +592,115 @@ Section Structures.
       eapply Forall_impl; [|exact Hl]. intros s Hs. apply tree_safe. exact Hs.
   Qed.
 End Structures.
+
+(* ---- whole programs, from the source text ------------------------------------------------------------ *)
+Lemma lexer_tokens_ok st undict (p : N -> bool) dv src :
+  (forall t, tok_lex_ok p t = true -> tok_ok st undict t = true) ->
+  forallb p src = true -> Forall (Q st undict) (tokenise_dv dv src).
+Proof.
+  intros Himp Hsrc. pose proof (tokenise_inv p dv src Hsrc) as H.
+  rewrite forallb_forall in H. apply Forall_forall. intros t Ht. apply Himp. apply H. exact Ht.
+Qed.
+
+Lemma forallb_const_true (s : str) : forallb (fun _ => true) s = true.
+Proof. induction s; [reflexivity|exact IHs]. Qed.
+
+(* any dictionary function, any lexer mode, any source *)
+Theorem source_safe_any undict dv src l text :
+  parse_tokens (tokenise_dv dv src) = Ok l -> transpile_ast undict l = TOk text -> safe_text false text.
+Proof.
+  intros Hp Ht. apply (program_safe false undict l text); [|exact Ht].
+  unfold parse_tokens in Hp.
+  eapply (parse_Q (Q false undict) eq_refl); [|exact Hp].
+  apply (lexer_tokens_ok false undict (fun _ => true) dv src).
+  - intros t. apply tok_lex_ok_lenient.
+  - apply forallb_const_true.
+Qed.
+
+Theorem source_safe src text : transpile_nodict src = OText text -> safe_text false text.
+Proof.
+  unfold transpile_nodict, parse_source. intro H.
+  destruct (parse_tokens (tokenise src)) as [l|e|] eqn:Ep; try discriminate.
+  destruct (transpile_ast (fun s => s) l) as [x|e] eqn:Et; [|discriminate].
+  inversion H; subst. exact (source_safe_any (fun s => s) false src l text Ep Et).
+Qed.
+
+(* without a carriage return in the source every string literal is exactly one
+   well-terminated Python literal *)
+Theorem source_safe_strict src text :
+  mem 13 src = false -> transpile_nodict src = OText text -> safe_text true text.
+Proof.
+  unfold transpile_nodict, parse_source. intros Hcr H.
+  destruct (parse_tokens (tokenise src)) as [l|e|] eqn:Ep; try discriminate.
+  destruct (transpile_ast (fun s => s) l) as [x|e] eqn:Et; [|discriminate].
+  inversion H; subst. apply (program_safe true (fun s => s) l text); [|exact Et].
+  unfold parse_tokens in Ep.
+  eapply (parse_Q (Q true (fun s => s)) eq_refl); [|exact Ep].
+  apply (lexer_tokens_ok true (fun s => s) (fun c => negb (N.eqb c 13)) false src).
+  - intros t. apply tok_lex_ok_strict.
+  - apply no_cr_forallb. exact Hcr.
+Qed.
+
+(* every variable / number token the lexer emits *)
+Theorem lexer_var_tokens dv src t : In t (tokenise_dv dv src) ->
+  (tk t = KVarGet \/ tk t = KVarSet) -> forallb is_name_char (tv t) = true /\ ident_ok (tv t) = true.
+Proof.
+  intros Hin Hk. pose proof (tokenise_inv (fun _ => true) dv src (forallb_const_true src)) as H.
+  rewrite forallb_forall in H. specialize (H t Hin). unfold tok_lex_ok in H.
+  destruct Hk as [Hk|Hk]; rewrite Hk in H; (split; [exact H|apply name_chars_ident; exact H]).
+Qed.
+
+Theorem lexer_number_tokens dv src t : In t (tokenise_dv dv src) -> tk t = KNumber ->
+  forallb num_src_char (tv t) = true /\
+  exists p, num_payload_ok p = true /\
+    (number_text (tv t) = L "stack.append(sympy.Rational(""" ++ p ++ L """))"
+     \/ number_text (tv t) = L "stack.append(sympy.nsimplify(""" ++ p ++ L """))").
+Proof.
+  intros Hin Hk. pose proof (tokenise_inv (fun _ => true) dv src (forallb_const_true src)) as H.
+  rewrite forallb_forall in H. specialize (H t Hin). unfold tok_lex_ok in H. rewrite Hk in H.
+  split; [exact H|apply number_text_shape; exact H].
+Qed.
+
+(* every token of the lexer, any dictionary *)
+Theorem lexer_token_safe undict dv src t n x : In t (tokenise_dv dv src) ->
+  token_text undict t = TOk x -> safe_text false (indent_str x n).
+Proof.
+  intros Hin Hx. apply (token_safe false undict n t x); [|exact Hx].
+  pose proof (lexer_tokens_ok false undict (fun _ => true) dv src
+                (fun t => tok_lex_ok_lenient undict t) (forallb_const_true src)) as H.
+  rewrite Forall_forall in H. apply H. exact Hin.
+Qed.
+
+(* ---- sanity: the predicate rejects what it should, the theorems are not vacuous ---------------------- *)
+(* @f:a[b]|1;  with the pre-b346166 regex gave this line *)
+Example unsafe_subscript : safe_line false (L "VAR_a[b] =pop(arg_stack, 1, ctx=ctx)") = false.
+Proof. vm_compute. reflexivity. Qed.
+Example unsafe_statement : safe_line false (L "__import__('os').system('x')") = false.
+Proof. vm_compute. reflexivity. Qed.
+Example unsafe_early_close : safe_line false (L "stack.append(""a"");__import__('os').system('x');(""b"")") = false.
+Proof. vm_compute. reflexivity. Qed.
+Example unsafe_trailing_backslash : safe_line false (L "stack.append(""a\"")") = false.
+Proof. vm_compute. reflexivity. Qed.
+Example safe_escaped_quote : safe_line true (L "    stack.append(""a\""b"")") = true.
+Proof. vm_compute. reflexivity. Qed.
+
+(* a function definition with parameters a[b] and 9, a back-quoted string holding x, a double
+   quote and an escaped back-quote, a variable set, then a call: text in most injection positions *)
+Definition demo_src : str :=
+  [64; 102; 58; 97; 91; 98; 93; 58; 57; 124; 96; 120; 34; 92; 96; 32; 8594; 95; 113; 32; 59; 64; 102; 59].
+Example source_safe_nonvacuous : exists text, transpile_nodict demo_src = OText text /\ mem 13 demo_src = false.
+Proof. eexists. split; [vm_compute; reflexivity|reflexivity]. Qed.
+
+(* a back-quoted string holding backslash + newline: the literal continues on the next
+   physical line, so "every physical line is a safe line" is NOT the right statement;
+   safe_text treats the two lines as one core *)
+Definition continuation_src : str := [96; 97; 92; 10; 98; 96].
+Example physical_lines_refuted : exists text,
+  transpile_nodict continuation_src = OText text /\ forallb (safe_line false) (lines text) = false.
+Proof. eexists. split; vm_compute; reflexivity. Qed.
+
+(* all templates are complete compilation units (translator fact, computed with Python's
+   own compile()): a vocabulary line never leaves a bracket or literal open across templates *)
+Lemma templates_self_contained :
+  forallb e_compiles elements = true /\ forallb m_compiles modifiers = true.
+Proof. vm_compute. split; reflexivity. Qed.
